@@ -71,7 +71,7 @@ def judge_lexer(chk: Check, cases: T.List[T.Dict[str, T.Any]], label: str) -> No
         if c.get('exc'):
             chk.violation(f"InternalError@lexer:{c['exc']}:{''.join(chr(x) for x in c['s'])[:60]!r}", c)
     cases = [c for c in cases if not c.get('exc')]
-    for part_no, part in enumerate(common.chunks(cases, 300000)):
+    for part_no, part in enumerate(common.size_chunks(cases, 300000, lambda c: {k: c[k] for k in ('id', 's', 'acc', 'toks', 'pos')})):
         with scratch('lex-') as d:
             tf = d / 'cases.json'
             tf.write_text(json.dumps([{k: c[k] for k in ('id', 's', 'acc', 'toks', 'pos')} for c in part]))
